@@ -408,9 +408,9 @@ pub fn render_ins(ins: &Ins, env: &mut Env) -> String {
             env.others.push(name.clone());
             env.ans = None;
             let w = *which % PRODUCTS.len() as u8;
-            if env.product_exprs.contains(&w) && !env.product_units.contains(&w) {
-                // a value of this product was shown before a unit for it existed: if both are
-                // in one input, the later `unit` statement changes how the earlier value is
+            if env.product_exprs.contains(&w) {
+                // a value of this product was shown before this unit existed: if both are in
+                // one input, the later `unit` statement changes how the earlier value is
                 // displayed (recorded C07 finding)
                 env.early_product = true;
             }
